@@ -51,8 +51,21 @@ FixPath(kind, p) ==
 DrawPath(kind, k) == FixPath(kind, RawPath(kind, k))
 Pick(a, b, c) == RandomElement({<<a>>, <<a, b>>, <<a, b, c>>, <<a, a>>})
 DrawPaths(kind, k) == IF kind = "invoke" THEN <<DrawPath(kind, 1)>> ELSE Pick(DrawPath(kind, 1), DrawPath(kind, 2), DrawPath(kind, 3))
-\* late: the write / invoke of a timed interaction reaches the node only after the announced time window has passed
-MkReq2(k, j, t) == [kind |-> k, paths |-> DrawPaths(k, j), timed |-> t, late |-> t /\ k # "read" /\ RandomElement({TRUE, FALSE, FALSE, FALSE})]
+\* timed: a Timed Request opens the interaction; claim: the TimedRequest flag the request message itself carries (normally
+\* the same; a requester may claim a timed interaction it never opened, or hide one);
+\* late: the write / invoke of a timed interaction reaches the node only after the announced time window has passed;
+\* paths2 / claim2 / late2: a write may come in two WriteRequest chunks - the second one with its own flag, possibly
+\* arriving after the window has passed (drawn only when the first chunk is in order)
+MkReq3(k, j, t, flip, lateD, two, flip2, late2D) ==
+  LET claim == IF k # "read" /\ flip THEN ~t ELSE t
+      late  == t /\ k # "read" /\ claim = t /\ lateD
+      ok1   == claim = t /\ ~late
+      claim2 == IF flip2 THEN ~t ELSE t
+  IN [kind |-> k, paths |-> DrawPaths(k, j), timed |-> t, claim |-> claim, late |-> late,
+      paths2 |-> IF k = "write" /\ ok1 /\ two THEN DrawPaths(k, j + 7) ELSE <<>>,
+      claim2 |-> claim2, late2 |-> t /\ claim2 = t /\ late2D]
+MkReq2(k, j, t) == MkReq3(k, j, t, RandomElement({TRUE, FALSE, FALSE, FALSE, FALSE, FALSE}), RandomElement({TRUE, FALSE, FALSE, FALSE}),
+                          RandomElement({TRUE, FALSE, FALSE}), RandomElement({TRUE, FALSE, FALSE}), RandomElement({TRUE, FALSE, FALSE}))
 MkReq(k, j) == MkReq2(k, j, RandomElement({TRUE, FALSE, FALSE}))
 DrawReq(j) == MkReq(RandomElement({"read", "read", "write", "invoke"}), j)
 IDraw(k) == [node |-> DrawNode(k), acl |-> DrawIAcl(k), who |-> RandomElement(Requesters), req |-> DrawReq(k)]
@@ -64,11 +77,14 @@ Attrs(c) == {<<0, "RV", FALSE, FALSE>>, <<1, c.a1, c.a1timed, FALSE>>} \cup (IF 
 Cmds(c) == IF c.c0 = "absent" THEN {} ELSE {<<0, c.c0, c.c0timed, c.c0fab>>}
 Leaves(c, kind) == IF kind = "invoke" THEN Cmds(c) ELSE Attrs(c)
 Op(kind) == IF kind = "read" THEN "read" ELSE "write"
+\* a request message (chunk) is refused as a whole when its flag does not match how the interaction was opened, or when the
+\* timed window has expired
+Refused1(r) == r.kind # "read" /\ (r.claim # r.timed \/ r.late)
+Refused2(r) == r.claim2 # r.timed \/ r.late2
 Permitted(cfg2, ep, cl, l, kind) ==
   /\ AccessDecl[l[2]][Op(kind)] # None                          \* the element supports the operation at all
   /\ Allow({[idx |-> 1, acl |-> cfg2.acl, groups |-> <<>>]}, cfg2.who, [op |-> Op(kind), access |-> l[2], ep |-> ep, cl |-> CL(cl), dts |-> {}])
   /\ (kind # "read" /\ l[3]) => cfg2.req.timed                 \* timed-only elements act only inside a timed interaction
-  /\ ~cfg2.req.late                                             \* nothing is acted on once the timed window has expired
   /\ l[4] => cfg2.who.fab # 0                                   \* fabric-scoped commands need a requester with a fabric
 Match(p, ep, cl, id) == (p.ep = Wild \/ p.ep = ep) /\ (p.cl = Wild \/ p.cl = cl) /\ (p.leaf = Wild \/ p.leaf = id)
 IsWild(p) == p.ep = Wild \/ p.cl = Wild \/ p.leaf = Wild
@@ -78,7 +94,9 @@ SelOf(cfg2, p) ==
           THEN {<<ep, cl, x[1]>> : x \in {y \in Leaves(cfg2.node[ep][cl], cfg2.req.kind) : Match(p, ep, cl, y[1]) /\ Permitted(cfg2, ep, cl, y, cfg2.req.kind)}}
           ELSE {} : ep \in EpSet, cl \in {1, 2} }
 \* per path: the set it acts on / returns, and whether it must be answered with a status instead
-PathResult(cfg2, p) == [sel |-> SelOf(cfg2, p), status |-> ~IsWild(p) /\ SelOf(cfg2, p) = {} /\ ~cfg2.req.late]
+\* (nothing is acted on, and no per-path answer is given, in a refused message)
+PathResultR(cfg2, p, refused) == [sel |-> IF refused THEN {} ELSE SelOf(cfg2, p), status |-> ~refused /\ ~IsWild(p) /\ SelOf(cfg2, p) = {}]
+PathResult(cfg2, p) == PathResultR(cfg2, p, Refused1(cfg2.req))
 
 VARIABLES icfg
 IInit == icfg = IDraw(0) /\ cfg = 0 /\ n = 0
@@ -86,8 +104,16 @@ INext == icfg' = IDraw(n + 1) /\ n' = n + 1 /\ UNCHANGED cfg
 ISpec == IInit /\ [][INext]_<<icfg, cfg, n>>
 ResultsOf(c) == LET R(k) == LET r == PathResult(c, c.req.paths[k]) IN [sel |-> r.sel, status |-> r.status] IN
   CASE Len(c.req.paths) = 1 -> <<R(1)>> [] Len(c.req.paths) = 2 -> <<R(1), R(2)>> [] OTHER -> <<R(1), R(2), R(3)>>
-IVec(c) == [node |-> c.node, acl |-> c.acl, who |-> c.who, req |-> c.req, results |-> ResultsOf(c)]
+Results2Of(c) == LET R(k) == PathResultR(c, c.req.paths2[k], Refused2(c.req)) IN
+  CASE Len(c.req.paths2) = 0 -> <<>> [] Len(c.req.paths2) = 1 -> <<R(1)>> [] Len(c.req.paths2) = 2 -> <<R(1), R(2)>> [] OTHER -> <<R(1), R(2), R(3)>>
+IVec(c) == [node |-> c.node, acl |-> c.acl, who |-> c.who, req |-> c.req, results |-> ResultsOf(c), results2 |-> Results2Of(c),
+            refused |-> Refused1(c.req), refused2 |-> Refused2(c.req)]
 IEmit == PrintT(<<"REPLAY", ToJson(IVec(icfg))>>)
 \* sanity of the reference: nothing is selected on an endpoint / cluster that does not exist; PASE never runs a fabric-scoped command
-ISane == \A k \in 1..Len(icfg.req.paths) : \A t \in PathResult(icfg, icfg.req.paths[k]).sel : Exists(icfg.node, t[1], t[2])
+ISane == /\ \A k \in 1..Len(icfg.req.paths) : \A t \in PathResult(icfg, icfg.req.paths[k]).sel : Exists(icfg.node, t[1], t[2])
+         \* a timed-only element is acted on only in a message of a timed interaction within its window
+         /\ \A k \in 1..Len(icfg.req.paths) : \A t \in PathResult(icfg, icfg.req.paths[k]).sel :
+              (icfg.req.kind # "read" /\ \E l \in Leaves(icfg.node[t[1]][t[2]], icfg.req.kind) : l[1] = t[3] /\ l[3]) => (icfg.req.timed /\ ~icfg.req.late)
+         /\ \A k \in 1..Len(icfg.req.paths2) : \A t \in PathResultR(icfg, icfg.req.paths2[k], Refused2(icfg.req)).sel :
+              (\E l \in Leaves(icfg.node[t[1]][t[2]], "write") : l[1] = t[3] /\ l[3]) => (icfg.req.timed /\ ~icfg.req.late2 /\ icfg.req.claim2)
 =============================================================================
